@@ -324,7 +324,6 @@ func diffMaps(want, got map[peer.ID]api.TrackerStatus) string {
 	return strings.Join(d, "; ")
 }
 
-
 func peerName(p peer.ID) string {
 	for i, q := range gen.Peers {
 		if q == p {
